@@ -152,8 +152,29 @@ func (e *Engine) initExt() {
 	e.reg("strings.Join", "strings.Join: pure; result depends on the slice contents (unconstrained here)", func(f *Frame, st *State, c *ssa.CallCommon, args []Val, rt types.Type, pos token.Pos) Val {
 		return freshResult(f, st, rt, "join")
 	})
-	e.reg("strings.Split", "strings.Split: returns a fresh slice with len >= 1 (sep non-empty)", func(f *Frame, st *State, c *ssa.CallCommon, args []Val, rt types.Type, pos token.Pos) Val {
-		return freshSlice(f, st, rt, One)
+	e.reg("strings.Split", "strings.Split(s, sep): returns a fresh slice with len >= 1 (sep non-empty); for a literal separator the result is split.len|sep(s) elements split.at|sep(s, i), both evaluated with the real strings.Split on every string literal of the VC", func(f *Frame, st *State, c *ssa.CallCommon, args []Val, rt types.Type, pos token.Pos) Val {
+		v := freshSlice(f, st, rt, One)
+		vc := f.vc
+		sep, ok := smtLiteral(args[1].one())
+		if !ok || sep == "" {
+			return v
+		}
+		ln := vc.declareFun("split.len|"+sep, []*Sort{SStr}, SInt)
+		at := vc.declareFun("split.at|"+sep, []*Sort{SStr, SInt}, SStr)
+		vc.litAxioms["split|"+sep] = func(l string) ([]string, []string) {
+			parts := strings.Split(l, sep)
+			out := []string{fmt.Sprintf("(assert (= (%s %s) %d))", ln, StrT(l).S, len(parts))}
+			for i, p := range parts {
+				out = append(out, fmt.Sprintf("(assert (= (%s %s %d) %s))", at, StrT(l).S, i, StrT(p).S))
+			}
+			return out, parts
+		}
+		s := args[0].one()
+		vc.fact(Eq(v.len(), mk(SInt, ln, s)))
+		row := Select(vc.get(st, vc.elemComps(elemOf(rt))[0]), v.arr())
+		j := Term{"j!q", SInt}
+		vc.fact(Forall([]Term{j}, Imp(And(Le(Zero, j), Lt(j, v.len())), Eq(Select(row, j), mk(SStr, at, s, j))), []Term{Select(row, j)}))
+		return v
 	}).mods = func(e *Engine, c *ssa.CallCommon, m *ModSet) {
 		m.allocKind("E|string")
 		addElemComps(m, types.Typ[types.String])
